@@ -284,6 +284,16 @@ def run(ctx):
         ctx.inst("C16.R3", "builder#radix-%s#sign" % rad, signs_ok and len(detail) >= 2, "sign table %s" % detail, H.loc(then))
         repl = [n for n in H.walk(then) if H.kind(n) == "MethodCall" and n["name"] == "replace" and H.lit(n["args"][0]) and H.lit(n["args"][0])["v"] == "_"]
         ctx.inst("C16.R3", "builder#radix-%s#underscores" % rad, bool(repl), "underscores removed before conversion: %s" % bool(repl), H.loc(then))
+    # whatever shape the conversion takes: hexadecimal / binary literals are read through an integer parse (exact), never accumulated in
+    # floating point. The integer parser must be reachable from the AST builder.
+    from lib import mir as M_
+    cg_ = M_.CallGraph([core])
+    reach_ = cg_.reachable_from(["blots_core::expressions::pairs_to_expr_inner"])
+    int_parsers = sorted(c_ for n_ in reach_ if n_.startswith("blots_core::") or n_.startswith("<blots_core") for c_ in cg_.out.get(n_, ()) if c_.endswith("from_str_radix"))
+    ctx.inst("C16.R3", "builder#integer-parse-reachable", bool(int_parsers), "integer parsers reachable from the AST builder: %s (hexadecimal / binary literals converted any other way round twice above 2^53)" % (sorted(set(int_parsers)) or "none"), None)
+    ctx.rule("C16.R4", "a negative literal is read as Negate(number) and evaluated as the IEEE negation, so the text `-0` reads back as -0 (not as 0 - 0 = +0)", floor=1)
+    from rules import c11 as c11_
+    c11_.unary_rule(ctx, "C16.R4", core)
     tn = arms.get("ToNumber")
     if tn is None:
         raise CheckerError("no ToNumber arm")
